@@ -79,7 +79,7 @@ def ix_repr(ix):
         return f"slice({ix.start},{ix.stop},{ix.step})"
     if isinstance(ix, np.ndarray):
         return f"array({ix.tolist()})"
-    return str(int(ix))
+    return str(int(ix)) if type(ix) is int else f"{type(ix).__name__}({int(ix)})"
 
 
 def err_lit(e):
@@ -582,7 +582,11 @@ def check_family(ctx, fam, rng, quick, budget):
 
     # ---- indexing
     ints, slices, arrs = index_set(rng, n, quick)
-    for ix in ints + slices + arrs:
+    # NumPy integer scalars (what `for i in np.arange(n): data[i]` passes) are integers too; irregular data reject them
+    # with TypeError on the unchanged tree (observed, outside the listed index kinds: not judged), so they are used for
+    # the other families only
+    np_ints = [] if "irr" in fam.kind else [np.int64(k) for k in ints] + [np.int32(ints[0]), np.intp(ints[-1])]
+    for ix in ints + np_ints + slices + arrs:
         oc = outcome(lambda: parent[ix])
         ident = None
         case = {**base, "op": "getitem", "index": ix_repr(ix)}
